@@ -11,6 +11,9 @@ const WORDS: &[&str] = &[
     "attributes-charset", "attributes-natural-language", "printer-uri", "job-uri", "job-id", "job-name", "copies", "sides",
     "media-col", "media-size", "x-dimension", "y-dimension", "media-type", "printer-state", "printer-state-reasons",
     "requesting-user-name", "document-format", "finishings", "a", "b", "c", "d", "e", "x", "y", "z",
+    // words that coincide with identifiers of the library's own data model (serialisers key on them)
+    "tag", "name", "value", "attributes", "groups", "header", "version", "payload", "data", "no-value", "NoValue", "integer", "Integer",
+    "keyword", "Keyword", "boolean", "other", "Other", "null", "true", "collection", "array", "Array", "language", "text",
 ];
 
 /// arbitrary UTF-8 of exactly `n` bytes
@@ -461,6 +464,46 @@ pub fn shapes() -> Vec<Model> {
         ],
         vec![],
     ));
+    // every subset of the five attributes the encoder treats specially, in the first operation group,
+    // in a second operation group and in a job group (distinct values so that a swap shows)
+    let hdr = ["attributes-charset", "attributes-natural-language", "printer-uri", "job-uri", "job-id"];
+    for mask in 1u32..32 {
+        let pick = |base: i32| -> Vec<(&str, MVal)> {
+            hdr.iter().enumerate().filter(|(i, _)| mask >> i & 1 == 1).map(|(i, n)| (*n, if i == 4 { MVal::Integer(base + i as i32) } else { MVal::Text { tag: [0x47u8, 0x48, 0x45, 0x45, 0x21][i], s: format!("v{base}-{i}") } })).chain([("zz-other", MVal::Boolean(true))]).collect()
+        };
+        out.push(msg1(vec![g(1, pick(100))], vec![]));
+        if mask % 3 == 0 || mask == 31 {
+            out.push(msg1(vec![g(1, pick(100)), g(1, pick(200)), g(2, pick(300))], vec![]));
+        }
+    }
+    // case variants of those names are ordinary attributes
+    out.push(msg1(vec![g(1, vec![("job-id", MVal::Integer(1)), ("Job-Id", MVal::Integer(2)), ("JOB-ID", MVal::Integer(3)), ("printer-uri", MVal::Integer(4)), ("Printer-URI", MVal::Integer(5)), ("attributes-charset", MVal::Integer(6)), ("Attributes-Charset", MVal::Integer(7))])], vec![]));
+    // empty collections as member values, at several depths and next to other members
+    {
+        let mut inner = BTreeMap::new();
+        inner.insert("a".to_string(), MVal::Integer(1));
+        inner.insert("b".to_string(), MVal::Coll(BTreeMap::new()));
+        inner.insert("c".to_string(), MVal::Boolean(true));
+        let mut outer = BTreeMap::new();
+        outer.insert("x".to_string(), MVal::Coll(inner.clone()));
+        outer.insert("y".to_string(), MVal::Coll(BTreeMap::new()));
+        outer.insert("z".to_string(), MVal::Set(vec![MVal::Coll(BTreeMap::new()), MVal::Coll(inner.clone())]));
+        out.push(msg1(vec![g(1, vec![("ec", MVal::Coll(inner))])], vec![]));
+        out.push(msg1(vec![g(1, vec![("ec2", MVal::Coll(outer))])], vec![]));
+    }
+    // with-language values with an empty language / empty text
+    for tag in [0x35u8, 0x36] {
+        out.push(msg1(vec![g(1, vec![("wl", MVal::WithLang { tag, lang: String::new(), s: "text".into() })])], vec![]));
+        out.push(msg1(vec![g(1, vec![("wl", MVal::WithLang { tag, lang: "en".into(), s: String::new() })])], vec![]));
+        out.push(msg1(vec![g(1, vec![("wl", MVal::Set(vec![MVal::WithLang { tag, lang: String::new(), s: "a".into() }, MVal::Text { tag: 0x41, s: "b".into() }]))])], vec![]));
+    }
+    // out-of-band kinds with empty bodies, alone, in sets and as members
+    for tag in [0x10u8, 0x12, 0x11, 0x15] {
+        let v = MVal::Other { tag, data: vec![] };
+        let mut c = BTreeMap::new();
+        c.insert("m".to_string(), v.clone());
+        out.push(msg1(vec![g(1, vec![("oob", v.clone()), ("oobset", MVal::Set(vec![v.clone(), MVal::NoValue, v.clone()])), ("oobcoll", MVal::Coll(c))])], vec![]));
+    }
     // boundary lengths: names and values
     let mut r = Rng::new(0xB0D);
     for &n in &[1usize, 2, 255, 256, 32767, 65535] {
@@ -865,9 +908,10 @@ pub fn tnv(out: &mut Vec<u8>, tag: u8, name: &[u8], val: &[u8]) {
     out.extend_from_slice(val);
 }
 
-pub const FAMILIES: [&str; 14] = [
+pub const FAMILIES: [&str; 19] = [
     "nest", "nest-noname", "set-width", "attr-count", "group-count", "member-count", "value-len", "name-len", "unterminated", "endcoll-flood",
-    "member-flood", "addl-no-attr", "coll-set", "nest-multi",
+    "member-flood", "addl-no-attr", "coll-set", "nest-multi", "name-invalid-utf8", "value-invalid-utf8", "member-count-desc", "member-count-shuffled",
+    "attr-count-desc",
 ];
 
 /// input family `fam` with about `n` bytes of attribute data
@@ -973,6 +1017,45 @@ pub fn family(fam: &str, n: usize) -> Vec<u8> {
                 tnv(&mut v, 0x13, &name, b"");
                 left = left.saturating_sub(k);
                 i += 1;
+            }
+        }
+        // names / values made entirely of invalid UTF-8 (each byte becomes a replacement character)
+        "name-invalid-utf8" | "value-invalid-utf8" => {
+            let mut left = n;
+            let mut i = 0u32;
+            while left > 0 {
+                let k = left.min(65535).max(8);
+                let mut blob = vec![0xffu8; k];
+                // keep names distinct
+                let tagbytes = format!("{i:06}").into_bytes();
+                blob[..6].copy_from_slice(&tagbytes);
+                if fam == "name-invalid-utf8" {
+                    tnv(&mut v, 0x13, &blob, b"");
+                } else {
+                    let name = format!("v{i}");
+                    tnv(&mut v, 0x41, name.as_bytes(), &blob);
+                }
+                left = left.saturating_sub(k);
+                i += 1;
+            }
+        }
+        // one flat collection whose member names arrive in descending / shuffled order
+        "member-count-desc" | "member-count-shuffled" => {
+            tnv(&mut v, 0x34, b"c", b"");
+            let m = n / 23;
+            for i in 0..m {
+                let k = if fam == "member-count-desc" { m - 1 - i } else { (i.wrapping_mul(7919) + 13) % m.max(1) };
+                let name = format!("m{k:07}");
+                tnv(&mut v, 0x4a, b"", name.as_bytes());
+                tnv(&mut v, 0x21, b"", &[0, 0, 0, 1]);
+            }
+            tnv(&mut v, 0x37, b"", b"");
+        }
+        "attr-count-desc" => {
+            let m = n / 17;
+            for i in 0..m {
+                let name = format!("a{:07}", m - 1 - i);
+                tnv(&mut v, 0x21, name.as_bytes(), &[0, 0, 0, 1]);
             }
         }
         // malformed variants
